@@ -29,6 +29,9 @@ pub enum Flavour {
 pub enum Act {
     Attempt { cs: u8, flavour: Flavour },
     Rollback(u8),
+    /// Two blocking commits of different changesets started on two threads while the harness keeps a
+    /// session alive for `hold_ms` (both wait for write access), then released: at most one may win.
+    Concurrent { a: u8, b: u8, hold_ms: u8 },
 }
 
 #[derive(Clone, Debug, Serialize, Deserialize, PartialEq, Eq)]
@@ -153,6 +156,101 @@ fn run_case<H: HK>(case: &C12Case, ctx: &Ctx) -> Result<CaseInfo, Violation> {
                 intervening = true;
                 info.bump("rollbacks_between");
                 same_state(r.db(), &r.model.cur, root_of(H::KIND, &r.model.cur), r.model.seqn, step, "after rollback").map_err(|e| tag(gray_accepted, e))?;
+            }
+            Act::Concurrent { a, b, hold_ms } => {
+                if changes.len() < 2 {
+                    continue;
+                }
+                let ia = *a as usize % changes.len();
+                let mut ib = *b as usize % changes.len();
+                if ib == ia {
+                    ib = (ia + 1) % changes.len();
+                }
+                if changes[ia].prepared.is_none() || changes[ib].prepared.is_none() {
+                    continue;
+                }
+                let valid = [changes[ia].base_root == cur_root, changes[ib].base_root == cur_root];
+                if (valid[0] || valid[1]) && intervening && !case.allow_gray {
+                    info.bump("excluded_kf_c12_1_gray_zone_attempts");
+                    continue;
+                }
+                let pa = changes[ia].prepared.take().unwrap();
+                let pb = changes[ib].prepared.take().unwrap();
+                let live = r.db().begin(&[], false).map_err(|f| v(step, f.sig()))?;
+                let db = r.db();
+                let commit = |p: Prepared| match p {
+                    Prepared::Fs(fs) => db.commit_finished(fs),
+                    Prepared::Ov(o) => db.commit_overlay(o),
+                };
+                let (ra, rb) = std::thread::scope(|sc| {
+                    let ha = sc.spawn(|| commit(pa));
+                    let hb = sc.spawn(|| commit(pb));
+                    std::thread::sleep(std::time::Duration::from_millis(1 + *hold_ms as u64 % 20));
+                    drop(live);
+                    (ha.join(), hb.join())
+                });
+                let (ra, rb) = match (ra, rb) {
+                    (Ok(x), Ok(y)) => (x, y),
+                    _ => return Err(v(step, "a committing thread panicked outside the guarded call")),
+                };
+                for r0 in [&ra, &rb] {
+                    if let Err(f) = r0 {
+                        if f.kind == FailKind::Panic {
+                            return Err(v(step, format!("one of two concurrent blocking commits panicked: {}", f.msg)));
+                        }
+                    }
+                }
+                info.bump("concurrent_pairs");
+                let what = format!("two concurrent blocking commits of changesets #{ia} / #{ib}");
+                // the two commits serialise in one of two orders; the observed outcome must be the one the
+                // model gives for at least one of them (a commit that does not change the root leaves the
+                // other changeset valid)
+                let got = (ra.is_ok(), rb.is_ok());
+                let mut matched: Option<Map> = None;
+                let mut expect = Vec::new();
+                for order in [[ia, ib], [ib, ia]] {
+                    let mut m = r.model.cur.clone();
+                    let mut acc = [false, false];
+                    for (pos, ci) in order.iter().enumerate() {
+                        if changes[*ci].base_root == root_of(H::KIND, &m) {
+                            m = crate::model::apply(H::KIND, &m, &changes[*ci].batch);
+                            acc[pos] = true;
+                        }
+                    }
+                    let as_ab = if order[0] == ia { (acc[0], acc[1]) } else { (acc[1], acc[0]) };
+                    expect.push(as_ab);
+                    if as_ab == got && matched.is_none() {
+                        matched = Some(m);
+                    }
+                }
+                let Some(_after) = matched else {
+                    return Err(v(
+                        step,
+                        format!(
+                            "{what} (prepared on the same base, started while a session made both wait): outcome (accepted #{ia}: {}, accepted #{ib}: {}) is not possible in either serial order (model: {:?} or {:?}) - a changeset was accepted although its base was no longer the current state, or refused although it was",
+                            got.0, got.1, expect[0], expect[1]
+                        ),
+                    ));
+                };
+                // replay the accepted ones on the model in the matching order
+                let order = if expect[0] == got { [ia, ib] } else { [ib, ia] };
+                for ci in order {
+                    let ok = if ci == ia { got.0 } else { got.1 };
+                    if ok {
+                        r.model.commit(&changes[ci].batch);
+                        intervening = true;
+                        info.bump("accepted");
+                    } else {
+                        info.bump("rejected");
+                        if changes[ci].has_delta_writes {
+                            info.bump("rejected_with_delta");
+                        }
+                    }
+                }
+                if got.0 != got.1 {
+                    info.bump("concurrent_pairs_one_winner");
+                }
+                same_state(r.db(), &r.model.cur, root_of(H::KIND, &r.model.cur), r.model.seqn, step, &format!("after {what} (accepted: {got:?})"))?;
             }
             Act::Attempt { cs, flavour } => {
                 if changes.is_empty() {
@@ -311,7 +409,7 @@ impl Check for C12 {
     fn rule() -> String {
         "a base state (proptest history of 1..4 commits, rollback enabled, small log limits and rollback segments) and 2..4 competing changesets all prepared on it (finished sessions and \
          overlays, each carrying a reverse delta), then a generated sequence of acts: commit attempts in any order and flavour (blocking; non-blocking; non-blocking while the harness keeps \
-         another session alive, later retried) and rollback(n) in between (which can make a stale changeset current again). Oracle: an attempt succeeds iff its base root equals the current \
+         another session alive, later retried), PAIRS of blocking commits started on two threads while a live session makes both wait (at most one may win, the other must be refused), and rollback(n) in between (which can make a stale changeset current again). Oracle: an attempt succeeds iff its base root equals the current \
          root, otherwise Err; with a live session the changeset is handed back; after EVERY rejected / deferred attempt root, seqn, poison flag and all values are as before; finally (on the \
          live handle or after a reopen) rollback(1) is applied repeatedly and must restore exactly the model's snapshots - i.e. the rollback history contains exactly the accepted commits - and \
          one rollback more than accepted commits must fail. Non-trivial = >= 1 rejected or deferred attempt whose changeset carries writes, followed by >= 1 rollback probe; distinct = distinct serialized case".into()
@@ -340,6 +438,7 @@ impl Check for C12 {
                     8 => (0u8..4, prop_oneof![3 => Just(Flavour::Blocking), 3 => Just(Flavour::NonBlocking), 2 => Just(Flavour::NonBlockingLive)])
                         .prop_map(|(cs, flavour)| Act::Attempt { cs, flavour }),
                     1 => (1u8..3).prop_map(Act::Rollback),
+                    2 => (0u8..4, 0u8..4, any::<u8>()).prop_map(|(a, b, hold_ms)| Act::Concurrent { a, b, hold_ms }),
                 ],
                 2..=9,
             ),
